@@ -219,13 +219,12 @@ impl Array6 {
 
         // Read packed byte array from offset HLL_BYTE_ARR_START
         let mut data = vec![0u8; num_bytes];
-        if !compact {
-            cursor
-                .read_exact(&mut data)
-                .map_err(insufficient_data("data"))?;
-        } else {
-            cursor.advance(num_bytes as u64);
-        }
+        // The register array is present in both the compact and the updatable form of the
+        // image; the compact flag only concerns the coupon / aux tables.
+        let _ = compact;
+        cursor
+            .read_exact(&mut data)
+            .map_err(insufficient_data("data"))?;
 
         // Create estimator and restore state
         let mut estimator = HipEstimator::new(lg_config_k);
